@@ -787,6 +787,25 @@ J_from_format(e) ==
            ELSE IF ~hasDate THEN V("date-from-now", <<p.back.w[1], p.back.w[2], p.back.w[3]>> = <<a.now[1], a.now[2], a.now[3]>>, a.now)
            ELSE <<>>))
 
+\* ---- C08 / C18: the locale's own tables ----------------------------------------------------
+\* The category functions of a shipped locale are the CLDR rules; every category the plural rule can produce has a
+\* template wherever the formatter will look one up (a missing one is a KeyError or an unsubstituted placeholder).
+Cats == {"zero", "one", "two", "few", "many", "other"}
+J_locale_tables(e) ==
+  LET name == e.a.locale  L == LOC[name]
+      used == {L.plural_cat[n + 1] : n \in 0..1000}
+      HU == {"year", "month", "week", "day", "hour", "minute", "second"}
+      missing == {<<u, c>> \in HU \X used : L.units[u][c] = <<>> \/ L.relative[u]["future"][c] = <<>> \/ L.relative[u]["past"][c] = <<>>}
+      oused == {L.ord_cat[n + 1] : n \in 0..400}
+  IN R(<<"tables", name>>,
+       ArrClause("cldr-plural-rule", L.plural_cat, 1001, LAMBDA k : CldrPlural(name, k - 1))
+       \o ArrClause("cldr-ordinal-rule", L.ord_cat, 401, LAMBDA k : CldrOrdinal(name, k - 1))
+       \o V("categories-are-cldr", used \subseteq Cats /\ oused \subseteq Cats, used)
+       \o V("template-for-every-plural-category", missing = {}, missing)
+       \* after / before wrap every difference relative to another value; ago / from_now only the "a few seconds" phrase
+       \o V("markers-present", L.after # <<>> /\ L.before # <<>> /\ (L.few_second # <<>> => L.ago # <<>> /\ L.from_now # <<>>),
+            "after / before (and ago / from_now where few_second exists)"))
+
 \* ---- C18 -----------------------------------------------------------------------------
 J_humanize(e) ==
   LET a == e.a  p == e.post  L == LOC[a.locale]
@@ -940,6 +959,7 @@ Judge(e) == CASE e.op = "in_tz" -> J_in_tz(e)
               [] e.op = "format" -> J_format(e)
               [] e.op = "from_format" -> J_from_format(e)
               [] e.op = "humanize" -> J_humanize(e)
+              [] e.op = "locale_tables" -> J_locale_tables(e)
               [] e.op = "in_words" -> J_in_words(e)
               [] e.op = "native_acc" -> J_native_acc(e)
               [] e.op = "native_cmp" -> J_native_cmp(e)
